@@ -70,6 +70,7 @@ def st_schedule_case(draw: st.DrawFn, tier: str) -> dict:
         "bufsize": draw(st.sampled_from([1, 3, 16, 1024, 65536])),
         "max_recv": draw(st.sampled_from([None, None, 1, 4])),
         "eof_in_same_step_as_last": draw(st.booleans()),
+        "poll_after_request": draw(st.booleans()),
     }
 
 
@@ -272,18 +273,26 @@ async def _run_server(case: dict) -> dict:
     async def handler(client: Any):  # noqa: ANN202
         t0 = loop.time()
         pending = list(expiries)
+        poll = False
         try:
             while True:
                 now = loop.time() - t0
                 nxt = next((e for e in pending if e > now - 1e-9), None)
                 timeout = None if nxt is None else max(nxt - now, 0.0)
+                if poll:
+                    # right after a request: poll once with a zero timeout for a pipelined one (a request that is already
+                    # buffered must be delivered, not lost to the expired wait)
+                    timeout = 0.0
+                was_poll, poll = poll, False
                 try:
                     req = yield timeout
                 except TimeoutError:
                     timeouts["n"] += 1
-                    pending = [e for e in pending if e > (loop.time() - t0) + 1e-9]
+                    if not was_poll:
+                        pending = [e for e in pending if e > (loop.time() - t0) + 1e-9]
                     continue
                 got.append(req)
+                poll = bool(case.get("poll_after_request", True))
         finally:
             if not ended.done():
                 ended.set_result(None)
